@@ -548,6 +548,7 @@ def field_closures(ctx, rid):
     MARK = "for(BTreeSet::iter(TypePath::parent_type_params(%s))){TypeParameters::mark_used(%s,elem(BTreeSet::iter(TypePath::parent_type_params(%s))))}" % (PATH, TP, PATH)
     exp_named = "{%s;Ok((syn::parse_str(C1_0.name@v1::Some.0)?,%s))}" % (MARK, FIR)
     exp_unnamed = "{%s;Ok(%s)}" % (MARK, FIR)
+    ctx.mention(exp_named, exp_unnamed)
     seen = set()
     for c in cls:
         t = N.term(c["body"])
